@@ -185,6 +185,32 @@ def fresh_replay(path, jit, hashseed="7"):
     return p.returncode, p.stdout + p.stderr
 
 
+def _session_replay(prop, seed, task, rdir):
+    """A violation that vanishes when its run is executed alone may need state left behind by the runs the
+    same worker process executed before it (a leak across runners of one process).  Try the run preceded by its
+    last 1, 2, 3 predecessors in one fresh interpreter; return (replay path, violation) if that reproduces."""
+    from .registry import trace_digest
+
+    prev = task.get("_prev") or []
+    v = task.get("_viol") or {}
+    for k in range(1, len(prev) + 1):
+        sess = {"property": prop, "jit": bool(task.get("_jit")), "session": prev[-k:] + [task["trace"]],
+                "note": "the last run violates only when the preceding runs were executed in the same process",
+                "expect": {"oracle": v.get("oracle"), "op": v.get("op"), "at_op": v.get("at_op"),
+                           "what": v.get("what"), "detail": v.get("detail"), "tags": v.get("tags", [])}}
+        path = rdir / f"{prop}-{seed}-{task['index']}-session{k}-{trace_digest(task['trace'])[:10]}.json"
+        path.write_text(json.dumps(sess, indent=1))
+        rc, _out = fresh_replay(path, bool(task.get("_jit")))
+        if rc == 1:
+            return path, dict(v, detail=str(v.get("detail")) + f" [needs the {k} preceding run(s) of the same process: "
+                                                                  "state leaks across runners of one process]")
+        try:
+            path.unlink()
+        except OSError:
+            pass
+    return None
+
+
 class Aggregate:
     """Everything the evidence file reports, measured from the replies."""
 
@@ -366,50 +392,80 @@ def run_check(prop, tier, plan, seed):
         seen_classes = collections.Counter()
         has_open = findings.has_open(known, prop)
         if agg.violations:
-            todo = []
+            from .registry import trace_digest
+
+            rdir = pathlib.Path(os.environ.get("YADSIM_REPLAY_DIR", str(VERIF / "replays")))
+            rdir.mkdir(parents=True, exist_ok=True)
+            queues = collections.OrderedDict()
             for task, reply in agg.violations:
                 v = reply["report"]["violations"][0]
                 cls = (v["oracle"], v.get("op"))
                 seen_classes[cls] += 1
-                if has_open:
-                    # with open known findings every violating run must be minimised and classified, so that a
-                    # *different* violation of the same property is never hidden behind a listed one
-                    if len(todo) < plan.get("max_shrinks_with_open_findings", 40):
-                        todo.append((task, reply))
-                elif seen_classes[cls] <= plan.get("shrink_per_class", 2) and len(todo) < plan.get("max_shrinks", 6):
-                    todo.append((task, reply))
-            results = []
+                queues.setdefault(cls, collections.deque()).append((task, reply))
+            per_class = plan.get("max_shrinks_with_open_findings", 40) if has_open else plan.get("shrink_per_class", 2)
+            total_cap = plan.get("max_shrinks_with_open_findings", 40) if has_open else plan.get("max_shrinks", 6)
+            confirmed = collections.Counter()
+            attempts = collections.Counter()
+            unreproduced = []
+            # Violations that do not reproduce in a fresh interpreter (state leaking from an earlier run of the
+            # same worker) are HARNESS-ERRORs, never VIOLATIONs; but before giving up on a class, further
+            # violating runs of that class are tried, so that a leak which is *also* visible inside one run is
+            # reported as what it is.
+            for _round in range(8):
+                todo = []
+                for cls, q in queues.items():
+                    want = per_class - confirmed[cls]
+                    while q and want > 0 and attempts[cls] < per_class + 12 and len(reported) + len(todo) < total_cap:
+                        todo.append((cls,) + q.popleft())
+                        attempts[cls] += 1
+                        want -= 1
+                if not todo:
+                    break
+                results = []
 
-            def on_shrunk(task, reply):
-                results.append((task, reply))
+                def on_shrunk(task, reply, results=results):
+                    results.append((task, reply))
 
-            for jit in sorted(set(bool(t.get("_jit")) for t, _ in todo)):
-                stasks = [{"cmd": "shrink", "prop": prop, "trace": reply["trace"], "index": task["index"],
-                           "watchdog": plan.get("shrink_watchdog", 900), "max_seconds": plan.get("shrink_seconds", 240),
-                           "max_exec": plan.get("shrink_execs", 150), "_jit": jit, "params": task["params"]}
-                          for task, reply in todo if bool(task.get("_jit")) == jit]
-                run_tasks(stasks, min(nworkers, len(stasks)), jit, 0, logdir, on_shrunk)
-            rdir = pathlib.Path(os.environ.get("YADSIM_REPLAY_DIR", str(VERIF / "replays")))
-            rdir.mkdir(parents=True, exist_ok=True)
-            for task, reply in results:
-                if "error" in reply or reply.get("min_trace") is None:
-                    harness_errors.append(f"shrink failed for index={task['index']}: {reply.get('error', 'violation vanished on re-execution')}")
-                    continue
-                m = reply["min_trace"]
-                v = reply["report"]["violations"][0]
-                m["expect"] = {"oracle": v["oracle"], "op": v.get("op"), "at_op": v["at_op"],
-                               "what": v["what"], "detail": v["detail"], "tags": v.get("tags", [])}
-                m["jit"] = bool(task.get("_jit"))
-                from .registry import trace_digest
-
-                path = rdir / f"{prop}-{seed}-{task['index']}-{trace_digest(m)[:10]}.json"
-                path.write_text(json.dumps(m, indent=1))
-                rc, out = fresh_replay(path, bool(task.get("_jit")))
-                if rc != 1:
-                    harness_errors.append(f"nondeterministic-violation: fresh replay of {path} exited {rc}: {out[-400:]}")
-                    continue
-                kf = findings.match(known, prop, m)
-                reported.append((path, v, kf))
+                for jit in sorted(set(bool(t.get("_jit")) for _, t, _ in todo)):
+                    stasks = [{"cmd": "shrink", "prop": prop, "trace": reply["trace"], "index": task["index"],
+                               "_prev": reply.get("prev_traces") or [], "_viol": reply["report"]["violations"][0],
+                               "watchdog": plan.get("shrink_watchdog", 900), "max_seconds": plan.get("shrink_seconds", 240),
+                               "max_exec": plan.get("shrink_execs", 150), "_jit": jit, "params": task["params"], "_cls": list(cls)}
+                              for cls, task, reply in todo if bool(task.get("_jit")) == jit]
+                    run_tasks(stasks, min(nworkers, len(stasks)), jit, 0, logdir, on_shrunk)
+                for task, reply in results:
+                    cls = tuple(task.get("_cls") or ())
+                    if "error" in reply or reply.get("min_trace") is None:
+                        sess = _session_replay(prop, seed, task, rdir) if "error" not in reply else None
+                        if sess is not None:
+                            confirmed[cls] += 1
+                            reported.append((sess[0], sess[1], None))
+                        else:
+                            unreproduced.append(f"index={task['index']}: {reply.get('error', 'violation vanished on re-execution in a fresh worker')}")
+                        continue
+                    m = reply["min_trace"]
+                    v = reply["report"]["violations"][0]
+                    m["expect"] = {"oracle": v["oracle"], "op": v.get("op"), "at_op": v["at_op"],
+                                   "what": v["what"], "detail": v["detail"], "tags": v.get("tags", [])}
+                    m["jit"] = bool(task.get("_jit"))
+                    path = rdir / f"{prop}-{seed}-{task['index']}-{trace_digest(m)[:10]}.json"
+                    path.write_text(json.dumps(m, indent=1))
+                    rc, out = fresh_replay(path, bool(task.get("_jit")))
+                    if rc != 1:
+                        sess = _session_replay(prop, seed, task, rdir)
+                        if sess is not None:
+                            confirmed[cls] += 1
+                            reported.append((sess[0], sess[1], None))
+                        else:
+                            unreproduced.append(f"index={task['index']}: fresh replay of {path} exited {rc}")
+                        continue
+                    confirmed[cls] += 1
+                    kf = findings.match(known, prop, m)
+                    reported.append((path, v, kf))
+            for u in unreproduced[:6]:
+                harness_errors.append(f"nondeterministic-violation {u}")
+            if len(unreproduced) > 6:
+                harness_errors.append(f"nondeterministic-violation … and {len(unreproduced) - 6} more")
         n_new = 0
         printed_known = set()
         for path, v, kf in reported:
